@@ -168,6 +168,14 @@ func c05Structure(i int64, seed uint64, r *fw.Rec) {
 	if rr.Intn(4) == 0 {
 		docJSON = `{"arr":{"k":"a","v":2}}`
 	}
+	nEval := 3
+	if rr.Intn(6) == 0 {
+		// value-based built-ins over equal objects with several members: the same
+		// outcome every time, however the members of a Go map come out
+		prog = rr.Pick("$distinct(dup)", "$distinct($append(dup, dup))", "$count($distinct(dup))", "dup[0] = dup[1]", "$distinct(dup.d)", "$string(dup[0]) = $string(dup[1])", "dup[0] in dup", "$distinct([dup[0], dup[1].d, dup[1]])")
+		docJSON = `{"dup":[{"a":1,"b":"x","c":[1,2],"d":{"p":1,"q":2,"r":3,"s":4}},{"d":{"s":4,"r":3,"q":2,"p":1},"c":[1,2],"b":"x","a":1},{"a":1,"b":"x","c":[1,2],"d":{"p":1,"q":2,"r":3,"s":4}}]}`
+		nEval = 12
+	}
 	r.Begin(prog, docJSON)
 	r.Tag("structure-preserved")
 	e, co := obs.Compile(prog)
@@ -180,7 +188,7 @@ func c05Structure(i int64, seed uint64, r *fw.Rec) {
 	r.Nontrivial(prog + docJSON)
 	h0, s0 := astHash(e.VerifNode()), e.String()
 	first := ""
-	for k := 0; k < 3; k++ {
+	for k := 0; k < nEval; k++ {
 		r.Evals(1)
 		d := digest(obs.Eval(e, decodeDoc(docJSON)), false, false)
 		if k == 0 {
